@@ -363,8 +363,8 @@ func disassembleInstruction(fn *runtime.Function, globals []Global, addr runtime
 		s += " " + disassembleOperand(fn, c, reflect.Interface, false)
 	case runtime.OpAssert:
 		s += " " + disassembleOperand(fn, a, reflect.Interface, false)
-		s += " " + fn.Types[b].String()
-		t := fn.Types[int(uint(b))]
+		s += " " + fn.Types[uint8(b)].String()
+		t := fn.Types[uint8(b)]
 		var kind = reflectToRegisterKind(t.Kind())
 		s += " " + disassembleOperand(fn, c, kind, false)
 	case runtime.OpBreak, runtime.OpContinue, runtime.OpGoto:
@@ -426,22 +426,22 @@ func disassembleInstruction(fn *runtime.Function, globals []Global, addr runtime
 		s += " " + disassembleOperand(fn, c, reflect.String, false)
 	case runtime.OpConvert:
 		s += " " + disassembleOperand(fn, a, reflect.Interface, false)
-		typ := fn.Types[int(uint(b))]
+		typ := fn.Types[uint8(b)]
 		s += " " + typ.String()
 		s += " " + disassembleOperand(fn, c, typ.Kind(), false)
 	case runtime.OpConvertInt, runtime.OpConvertUint:
 		s += " " + disassembleOperand(fn, a, reflect.Int, false)
-		typ := fn.Types[int(uint(b))]
+		typ := fn.Types[uint8(b)]
 		s += " " + typ.String()
 		s += " " + disassembleOperand(fn, c, reflect.Kind(typ.Kind()), false)
 	case runtime.OpConvertFloat:
 		s += " " + disassembleOperand(fn, a, reflect.Float64, false)
-		typ := fn.Types[int(uint(b))]
+		typ := fn.Types[uint8(b)]
 		s += " " + typ.String()
 		s += " " + disassembleOperand(fn, c, reflect.Kind(typ.Kind()), false)
 	case runtime.OpConvertString:
 		s += " " + disassembleOperand(fn, a, reflect.String, false)
-		typ := fn.Types[int(uint(b))]
+		typ := fn.Types[uint8(b)]
 		s += " " + typ.String()
 		s += " " + disassembleOperand(fn, c, reflect.Kind(typ.Kind()), false)
 	case runtime.OpCopy:
@@ -582,14 +582,14 @@ func disassembleInstruction(fn *runtime.Function, globals []Global, addr runtime
 			s += " " + disassembleOperand(fn, c, reflect.Interface, false)
 		}
 	case runtime.OpMakeArray, runtime.OpMakeStruct, runtime.OpNew:
-		s += " " + fn.Types[int(uint(b))].String()
+		s += " " + fn.Types[uint8(b)].String()
 		s += " " + disassembleOperand(fn, c, reflect.Interface, false)
 	case runtime.OpMakeChan, runtime.OpMakeMap:
-		s += " " + fn.Types[int(uint(a))].String()
+		s += " " + fn.Types[uint8(a)].String()
 		s += " " + disassembleOperand(fn, b, reflect.Int, k)
 		s += " " + disassembleOperand(fn, c, reflect.Interface, false)
 	case runtime.OpMakeSlice:
-		s += " " + fn.Types[int(uint(a))].Elem().String()
+		s += " " + fn.Types[uint8(a)].Elem().String()
 		if b > 0 {
 			next := fn.Body[addr+1]
 			s += " " + disassembleOperand(fn, next.A, reflect.Int, (b&(1<<1)) != 0)
@@ -674,7 +674,7 @@ func disassembleInstruction(fn *runtime.Function, globals []Global, addr runtime
 		s += " " + disassembleOperand(fn, a, getKind('a', fn, addr), k)
 		s += " " + disassembleVarRef(fn, globals, int16(int(b)<<8|int(uint8(c))))
 	case runtime.OpShow:
-		typ := fn.Types[int(uint(a))]
+		typ := fn.Types[uint8(a)]
 		s += " " + typ.String()
 		s += " " + disassembleOperand(fn, b, reflectToRegisterKind(typ.Kind()), false)
 		ctx, _, _ := decodeRenderContext(runtime.Context(c))
@@ -714,7 +714,7 @@ func disassembleInstruction(fn *runtime.Function, globals []Global, addr runtime
 			s += " " + disassembleText(fn.Text[i], textSize)
 		}
 	case runtime.OpTypify:
-		typ := fn.Types[int(uint(a))]
+		typ := fn.Types[uint8(a)]
 		s += " " + typ.String()
 		s += " " + disassembleOperand(fn, b, reflectToRegisterKind(typ.Kind()), k)
 		s += " " + disassembleOperand(fn, c, reflect.Interface, false)
@@ -748,13 +748,13 @@ func disassembleInstruction(fn *runtime.Function, globals []Global, addr runtime
 func funcNameType(fn *runtime.Function, index int8, addr runtime.Addr, op runtime.Operation) (bool, string, reflect.Type) {
 	switch op {
 	case runtime.OpCallFunc, runtime.OpCallMacro:
-		macro := fn.Functions[index].Macro
-		typ := fn.Functions[index].Type
-		name := fn.Functions[index].Name
+		macro := fn.Functions[uint8(index)].Macro
+		typ := fn.Functions[uint8(index)].Type
+		name := fn.Functions[uint8(index)].Name
 		return macro, name, typ
 	case runtime.OpCallNative:
-		name := fn.NativeFunctions[index].Name()
-		typ := reflect.TypeOf(fn.NativeFunctions[index].Func())
+		name := fn.NativeFunctions[uint8(index)].Name()
+		typ := reflect.TypeOf(fn.NativeFunctions[uint8(index)].Func())
 		return false, name, typ
 	case runtime.OpCallIndirect, runtime.OpDefer:
 		return false, "", fn.InstructionInfo[addr].FuncType
